@@ -14,7 +14,7 @@ def plan(tier):
     # the 32-bit word copy of the S-box and of the cipher (the full configuration matrix is C12)
     import copy
     for q0 in list(qs):
-        if q0.name == 'sbox' or q0.name in ('e2e:r5:enc:via0', 'e2e:r8:dec:via0') or (tier == 'thorough' and q0.name.startswith('e2e:')):
+        if q0.name == 'sbox' or q0.name in ('e2e:r5:enc:via0', 'e2e:r8:dec:via0', 'e2e:r5:enc:via2', 'e2e:r8:dec:via3') or (tier == 'thorough' and q0.name.startswith('e2e:')):
             q2 = copy.copy(q0); q2.name = q0.name + ':w32'; q2.cfg = {'64BIT': 0}; q2.desc = q0.desc + ' [32-bit word path, SKINNY_64BIT=0]'; qs.append(q2)
     if tier == 'thorough':
         for q0 in list(qs):
